@@ -112,6 +112,12 @@ class _Ev(Evaluator):
             if len(rest) == 1:
                 return rest[0]
             raise Inconclusive(f"and/or of several symbolic bits: {ast.unparse(e)[:60]}")
+        if isinstance(e, ast.Compare) and len(e.ops) == 1 and isinstance(e.ops[0], (ast.Gt, ast.GtE, ast.Lt, ast.LtE, ast.Eq, ast.NotEq)):
+            l, r = self.ev(e.left), self.ev(e.comparators[0])
+            if l.is_const() and r.is_const():
+                import operator
+                fn = {ast.Gt: operator.gt, ast.GtE: operator.ge, ast.Lt: operator.lt, ast.LtE: operator.le, ast.Eq: operator.eq, ast.NotEq: operator.ne}[type(e.ops[0])]
+                return Form.k(1 if fn(l.const, r.const) else 0)
         if isinstance(e, ast.Compare) and len(e.ops) == 1 and isinstance(e.ops[0], (ast.Gt, ast.GtE, ast.Lt, ast.LtE)):
             l, r = self.ev(e.left), self.ev(e.comparators[0])
             op = e.ops[0]
@@ -221,6 +227,32 @@ class AbsRun:
     def block(self, stmts) -> None:
         for s in stmts:
             self.stmt(s)
+
+    def run_events(self, events) -> bool:
+        """Replay the events of one path (sa.paths) as straight-line code.  Tests that fold to a constant must agree
+        with the branch the path took: returns False when the path is infeasible for the current values."""
+        for e in events:
+            n = e.node
+            if e.kind == "test":
+                try:
+                    t = self.folder.fold(n)
+                except Exception:
+                    try:
+                        tf = self.ev.truth(n)
+                    except Inconclusive:
+                        continue
+                    if tf.is_const() and bool(tf.const) != bool(e.pol):
+                        return False
+                    continue
+                if bool(t) != bool(e.pol):
+                    return False
+            elif e.kind in ("stmt",) and isinstance(n, (ast.Assign, ast.AugAssign, ast.AnnAssign, ast.Expr)):
+                self.stmt(n)
+            elif e.kind == "loop" and e.pol and hasattr(n, "target"):
+                for x in ast.walk(n.target):
+                    if isinstance(x, ast.Name):
+                        self.env.pop(x.id, None)
+        return True
 
     def _tick(self, s: ast.AST) -> None:
         self.steps += 1
